@@ -24,7 +24,7 @@ func shadowFixpoint(face engine.Face, mk func() frontend.Circuit, maxPasses int)
 		circ.BindInputs(c, cfg)
 		res := harnRunOpt(engine.Options{Face: face, Shadow: cfg}, c.Define)
 		results = append(results, res)
-		if res.Verdict != engine.Accept {
+		if !res.AcceptedHonestly() {
 			return nil, results, fmt.Errorf("shadow pass %d: %s", pass, res)
 		}
 		if cfg.Report.Changed == 0 {
